@@ -20,7 +20,7 @@
 From stdpp Require Import base list option numbers.
 From RecordUpdate Require Import RecordUpdate.
 From Incr.Model Require Import Base Live Engine Api.
-From Incr.Proofs Require Import Pres RchInv RchMin Needed OkPres HeapNeeded FrameHeapNec Histories.
+From Incr.Proofs Require Import Pres RchInv RchMin Needed OkPres HeapNeeded FrameHeapNec ForcePin FrameForcePin Histories.
 Local Open Scope Z_scope.
 
 Theorem C05_nothing_queued_nothing_runs :
@@ -76,6 +76,19 @@ Theorem C05_popped_node_is_necessary :
     exists x, nodes s !! n = Some x /\ is_necessary x = true.
 Proof. exact popped_node_is_necessary. Qed.
 
+(* "necessary" at a quiescent point means: has a recorded dependant or an observer.  The third disjunct of
+   is_necessary, the force_necessary pin, is only set while change_child_bind_rhs rewires a bind's
+   right-hand side: after every operation of every history (both builds, up to the first failing one) no node
+   carries it *)
+Theorem C05_no_node_is_pinned_between_operations :
+  forall fuel max_height dbg ops, while_ok (run_history fuel max_height dbg ops) (FNx []).
+Proof. exact history_no_pin. Qed.
+
+Theorem C05_necessary_means_has_a_dependant_or_an_observer :
+  forall s n x, FNx [] s -> nodes s !! n = Some x ->
+    is_necessary x = negb (bool_decide (n_parents x = [])) || negb (bool_decide (n_observers x = [])).
+Proof. exact no_pin_necessary. Qed.
+
 (* non-vacuity: the only observer of a chain is dropped; the next stabilise unlinks it, the cascade empties
    the heap, and the variable write after that queues nothing: two stabilisations without a single
    recompute event *)
@@ -97,3 +110,5 @@ Print Assumptions C05_queued_nodes_are_necessary_in_every_history.
 Print Assumptions C05_every_operation_keeps_queued_nodes_necessary.
 Print Assumptions C05_exemptions_are_opened_and_closed.
 Print Assumptions C05_popped_node_is_necessary.
+Print Assumptions C05_no_node_is_pinned_between_operations.
+Print Assumptions C05_necessary_means_has_a_dependant_or_an_observer.
